@@ -104,7 +104,8 @@ func (a *API) RoundTrip(req *http.Request) (*http.Response, error) {
 		}
 		res := []z{}
 		for _, zz := range a.Zones {
-			if q.Get("name") == "" || q.Get("name") == zz.Name {
+			// (zone names are matched without regard to letter case, as DNS names are; the canonical spelling is returned)
+			if q.Get("name") == "" || strings.EqualFold(q.Get("name"), zz.Name) {
 				res = append(res, z{zz.ID, zz.Name})
 			}
 		}
